@@ -630,12 +630,23 @@ func (w *messageWriter) flushFrame(final bool, extra []byte) error {
 	return nil
 }
 
+// grow makes room for at least n more bytes in the frame buffer. The framing
+// has no continuation frames (one frame is one message), so a message that
+// does not fit into the buffer must not be flushed in pieces.
+func (w *messageWriter) grow(n int) {
+	size := 2 * len(w.c.writeBuf)
+	if size < w.pos+n {
+		size = w.pos + n
+	}
+	buf := make([]byte, size)
+	copy(buf, w.c.writeBuf[:w.pos])
+	w.c.writeBuf = buf
+}
+
 func (w *messageWriter) ncopy(max int) (int, error) {
 	n := len(w.c.writeBuf) - w.pos
 	if n <= 0 {
-		if err := w.flushFrame(false, nil); err != nil {
-			return 0, err
-		}
+		w.grow(max)
 		n = len(w.c.writeBuf) - w.pos
 	}
 	if n > max {
@@ -647,15 +658,6 @@ func (w *messageWriter) ncopy(max int) (int, error) {
 func (w *messageWriter) Write(p []byte) (int, error) {
 	if w.err != nil {
 		return 0, w.err
-	}
-
-	if len(p) > 2*len(w.c.writeBuf) && w.c.isServer {
-		// Don't buffer large messages.
-		err := w.flushFrame(false, p)
-		if err != nil {
-			return 0, err
-		}
-		return len(p), nil
 	}
 
 	nn := len(p)
@@ -695,10 +697,7 @@ func (w *messageWriter) ReadFrom(r io.Reader) (nn int64, err error) {
 	}
 	for {
 		if w.pos == len(w.c.writeBuf) {
-			err = w.flushFrame(false, nil)
-			if err != nil {
-				break
-			}
+			w.grow(1)
 		}
 		var n int
 		n, err = r.Read(w.c.writeBuf[w.pos:])
